@@ -1,5 +1,5 @@
 //@unit hx
-//@serves C28 C29
+//@serves C28 C29 C16
 //@src node/src/p2p/header_ex/utils.rs
 #![feature(allocator_api)]
 use vstd::prelude::*;
@@ -98,7 +98,7 @@ pub trait HeaderResponseExt {
 impl HeaderResponseExt for HeaderResponse {
     open spec fn rs(&self) -> HeaderResponse { *self }
 //@fn impl HeaderResponseExt for HeaderResponse :: to_validated_extented_header
-//@props C28
+//@props C28 C16
     fn to_validated_extented_header(&self) -> (r: Result<ExtendedHeader, HeaderExError>)
 //@sub E9 "StatusCode::Ok => ExtendedHeader::decode_and_validate(&self.body[..]) .map_err(|_| HeaderExError::InvalidResponse)," => "StatusCode::Ok => match ExtendedHeader::decode_and_validate(self.body.as_slice()) { Ok(h) => Ok(h), Err(_) => Err(HeaderExError::InvalidResponse) },"
 //@end
@@ -137,7 +137,7 @@ fn vx_sort_by_height(v: &mut Vec<ExtendedHeader>)
 { unimplemented!() }
 
 //@fn - :: decode_and_verify_responses @ node/src/p2p/header_ex/client.rs
-//@props C28
+//@props C28 C16
 async fn decode_and_verify_responses(
     request: &HeaderRequest,
     responses: &[HeaderResponse],
@@ -255,7 +255,7 @@ pub struct Channel {}
 //@const MAX_HEADERS_AMOUNT_RESPONSE @ node/src/p2p/header_ex/server.rs
 
 //@fn - :: parse_request @ node/src/p2p/header_ex/server.rs
-//@props C29
+//@props C29 C16
 fn parse_request(request: HeaderRequest) -> (r: Option<(u64, Data)>)
     ensures
         r.is_some() == req_valid(request),
@@ -290,7 +290,7 @@ pub open spec fn by_height_ok(stored: ISet<int>, origin: u64, amount: u64, resp:
 }
 
 //@fn impl<S, R> HeaderExServerHandler<S, R> :: handle_request_by_height @ node/src/p2p/header_ex/server.rs
-//@props C29
+//@props C29 C16
 //@block "async move {"
 async fn handle_request_by_height_task(store: &Store, channel: Channel, origin: u64, amount: u64) -> (res: (Channel, Vec<HeaderResponse>))
     requires origin >= 1
@@ -333,7 +333,7 @@ impl Store {
 pub fn vx_vec1(x: HeaderResponse) -> (r: Vec<HeaderResponse>) ensures r@ == seq![x] { vec![x] }
 
 //@fn impl<S, R> HeaderExServerHandler<S, R> :: handle_request_current_head @ node/src/p2p/header_ex/server.rs
-//@props C29
+//@props C29 C16
 //@block "async move {"
 //@macro vec => vx_vec1($args)
 async fn handle_request_current_head_task(store: &Store, channel: Channel) -> (res: (Channel, Vec<HeaderResponse>))
@@ -342,7 +342,7 @@ async fn handle_request_current_head_task(store: &Store, channel: Channel) -> (r
 //@end
 
 //@fn impl<S, R> HeaderExServerHandler<S, R> :: handle_request_by_hash @ node/src/p2p/header_ex/server.rs
-//@props C29
+//@props C29 C16
 //@block "async move {"
 //@macro vec => vx_vec1($args)
 async fn handle_request_by_hash_task(store: &Store, channel: Channel, hash: TmHash) -> (res: (Channel, Vec<HeaderResponse>))
@@ -368,7 +368,7 @@ impl HeaderExServerHandler {
         ensures final(self).last@ == Action::ByHash(hash@), final(self).stopping == old(self).stopping, final(sender).sent@ == old(sender).sent@ { unimplemented!() }
 
 //@fn impl<S, R> HeaderExServerHandler<S, R> :: on_request_received @ node/src/p2p/header_ex/server.rs
-//@props C29
+//@props C29 C16
     fn on_request_received(
         &mut self,
         peer: PeerId,
